@@ -62,14 +62,14 @@ def plan(tier, seed):
     if tier == "quick":
         npairs, nb, nx, xn, nm, mn = 160, 100, 16, 400, 1, 120
     else:
-        npairs, nb, nx, xn, nm, mn = 2000, 120, 36, 1000, 8, 250
-    for b in range(npairs):
-        descs.append({"kind": "pairs", "seed": seed, "batch": b, "n": nb})
-    for b in range(nx):
+        npairs, nb, nx, xn, nm, mn = 1200, 120, 36, 1000, 8, 250
+    for b in range(nx):  # slowest first
         descs.append({"kind": "xproc", "seed": seed, "batch": b, "n": xn, "hashseed": 1 + b % 3})
     for c in CACHES:
         for b in range(nm):
             descs.append({"kind": "memo", "seed": seed, "batch": b, "n": mn, "cache": c})
+    for b in range(npairs):
+        descs.append({"kind": "pairs", "seed": seed, "batch": b, "n": nb})
     return descs
 
 
@@ -246,8 +246,11 @@ def check_group(v, spec, rng, i, prev, keys_out):
         r = oracle(a, b)
         if r != M.NE:
             v.count("mutant_not_ne")
-            if r == M.FREE:
+            if r == M.FREE:  # no demand; record what pipefunc does
                 v.count("pairs_free")
+                kb, eb = get_key(kf, b)
+                if ka is not None and eb is None:
+                    v.count("pairs_free_keys_equal" if keys_equal(ka, kb)[0] else "pairs_free_keys_unequal")
             continue
         v.count(f"mut:{kind}")
         v.classes.add(f"mut:{kind}")
@@ -311,7 +314,7 @@ def run_pairs(desc):
         rng = random.Random(f"c15/{desc['seed']}/pairs/{desc['batch']}/{i}")
         spec = M.gen_top(rng)
         prev = check_group(v, spec, rng, i, prev, keys)
-        if desc["batch"] % 16 == 0 and i == 7:
+        if desc["batch"] % 64 == 0 and i == 7:
             mm = M.mutate(random.Random(1), spec)
             sample = {"kind": "pairs", "value": M.pyrepr(prev[0])[:300], "key": repr(prev[1])[:300],
                       "mutant": None if mm is None else [mm[0], M.pyrepr(M.build(mm[2]))[:300]]}
@@ -569,7 +572,7 @@ def run_memo(desc):
                           returned=str(r)[:300], direct_result=expect[:300], cache=cname)
                 else:
                     seen.setdefault(r, (i, label, x))
-                if sample is None and hit and i > 3 and desc["batch"] == 0:
+                if sample is None and hit and i > 3 and desc["batch"] == 0 and cname in ("lru_shared", "disk"):
                     sample = {"kind": "memo", "cache": cname, "argument": M.pyrepr(x)[:300], "label": label,
                               "result_from_cache": str(r)[:200], "direct_result": expect[:200]}
         v.count(f"memo_probe_calls:{cname}", len(probe_calls))
@@ -596,15 +599,15 @@ def finalize(agg, tier, seed):
         if c.get(k, 0) < n:
             floors.append(f"{k}={c.get(k, 0)} (< {n})")
 
-    need("pairs_eq", 15000 if q else 400000)
-    need("pairs_ne", 20000 if q else 600000)
-    need("keys_hashed", 6000 if q else 150000)
+    need("pairs_eq", 15000 if q else 300000)
+    need("pairs_ne", 20000 if q else 450000)
+    need("keys_hashed", 6000 if q else 100000)
     for variant in ("deepcopy", "fresh", "perm"):
-        need(f"eqcopy:{variant}", 5000 if q else 120000)
+        need(f"eqcopy:{variant}", 5000 if q else 100000)
     for k in FLOOR_KINDS:
         need(f"mut:{k}", 100 if q else 2000)
     for k in KFS:
-        need(f"kf:{k}", 1500 if q else 30000)
+        need(f"kf:{k}", 1500 if q else 25000)
     need("xproc_native_compared", 4000 if q else 25000)
     need("xproc_children", 8 if q else 30)
     if c.get("xproc_children_with_other_str_hash", 0) < c.get("xproc_children", 0):
@@ -612,6 +615,6 @@ def finalize(agg, tier, seed):
     for cn in CACHES:
         need(f"memo_calls:{cn}", 500 if q else 8000)
         need(f"memo_hits:{cn}", 100 if q else 1500)
-    if len(agg.keys) < (4000 if q else 60000):
+    if len(agg.keys) < (4000 if q else 50000):
         floors.append(f"only {len(agg.keys)} distinct non-trivial base values")
     return floors, {}
